@@ -611,3 +611,7 @@ PROPS["C09"]._v = PROPS["C09"]._v + [V_STRLIT]       # `\xHH` denotes the charac
 PROPS["C18"]._v = PROPS["C18"]._v + [V_INTERP]       # column of an error inside an interpolation slot (characters, not bytes)
 PROPS["C18"]._v = PROPS["C18"]._v + [u for u in ALL_V if u.name == "render"]    # a context wrapper the renderer does not peel loses the position
 PROPS["C09"]._v = PROPS["C09"]._v + [V_MAIN]         # a syntax error is reported where the unexpected token starts, whatever follows it
+
+
+# C03 "the reported line never exceeds the number of lines in the file plus one": the scanner's one-step position contract
+PROPS["C03"]._k = PROPS["C03"]._k + [u for u in props_lexer.C18_UNITS if u not in PROPS["C03"]._k]
